@@ -129,6 +129,19 @@ FORBID = {
 }
 DIRECTED += [(k, {}) for k in FORBID]
 
+# skip marks that carry a remark, blanks or a tab on the mark line, at the
+# beginning, in the middle and at the end of the text, inside a footnote, two
+# regions in one text: the region never reaches the output
+SKIP_TAILS = ['', ' (generated table)', '   ', '\t', ' % x', ': secret note', '-1']
+DIRECTED += [(pre + '%%% LT-SKIP-BEGIN' + a + '\nsecret hidden \\foo $\n%%% LT-SKIP-END' + b
+              + '\n' + post, {})
+             for a in SKIP_TAILS for b in SKIP_TAILS[:4]
+             for pre, post in (('', 'Alpha beta.\n'), ('Alpha.\n', 'Beta gamma.\n'),
+                               ('Alpha beta.\n', ''),
+                               ('A\\footnote{one\n', 'two} B.\n'))]
+DIRECTED += [('Alpha.\n%%% LT-SKIP-BEGIN\nsecret\n%%% LT-SKIP-END\nBeta.\n'
+              '%%% LT-SKIP-BEGIN (table)\nhidden gone\n%%% LT-SKIP-END (table)\nGamma.\n', {})]
+
 
 def oracle_all(c, d, kind, im):
     if kind == 'directed' and im[0] == 'OK':
